@@ -5,7 +5,7 @@ from mc import strictjson
 import os
 import tempfile
 
-from mc import core, pelgen, impl, clidrv
+from mc import subchunk, core, pelgen, impl, clidrv
 from mc.core import ChunkResult
 from mc.ref import select as ref
 
@@ -66,6 +66,8 @@ def plan(tier, seed):
         ch.append({'k': 'cli', 'part': part, 'parts': 8})
     for part in range(8):
         ch.append({'k': 'subproc', 'part': part})
+    # the same under python -O (assertions stripped, __debug__ false)
+    ch += [dict(c, optimize=True) for c in [{'k': 'lookup'}, {'k': 'cli_lookup'}, {'k': 'product', 'lo': 0, 'hi': 8, 'tier': 'quick'}, {'k': 'cli', 'part': 0, 'parts': 8}]]
     return ch
 
 
@@ -115,6 +117,9 @@ def eval_case(case):
 
 
 def run_chunk(chunk):
+    routed = subchunk.route(__name__, chunk)
+    if routed is not None:
+        return routed
     res = ChunkResult()
     k = chunk['k']
     pt = impl.ensure(False)
